@@ -48,7 +48,8 @@ CONFIG = {
     'must_sig': ['init:rejected_non_total', 'init:accepted',
                  'init:isolated_state_rejected', 'init:S0_outside',
                  'init:labels_for_nonstate', 'sub:rejected_non_total',
-                 'sub:accepted_proper', 'invariant:during_modelcheck'],
+                 'sub:accepted_proper', 'invariant:during_modelcheck',
+                 'deep:big', 'deep:small'],
     'rule': ('cases = constructor argument combinations (S, S0, R, L) and '
              'subsets V; enumerated: all 1+2+16+512 relations on <=3 states '
              '(total or not) x {S omitted, S = nodes, S with an extra '
@@ -505,6 +506,54 @@ def drive(n, R, k, ctx, r):
                         'L': repr(L)})
 
 
+def deep_copies(ctx, r):
+    """Clones of clones, substructures of substructures, big rings, label
+    values that are themselves tuples / frozensets, equal-but-distinct state
+    objects."""
+    from pyModelChecking.kripke import Kripke
+    for k in range(60 if ctx.quick else 1500):
+        if not ctx.mine(k):
+            continue
+        rr = gen.rng(ctx.seed, PROP, ('deep', k))
+        big = k % 10 == 0
+        n = rr.randint(200, 400) if big else rr.randint(4, 7)
+        nm = [lambda i: i, lambda i: 'st%d' % i,
+              lambda i: (i // 3, i % 3, 'k')][k % 3]
+        R = [(nm(i), nm((i + 1) % n)) for i in range(n)]
+        for _ in range(n // 2):
+            a, b = rr.randrange(n), rr.randrange(n)
+            R.append((nm(a), nm(b)))
+        if not big:
+            R.append((nm(n - 1), nm(n - 1)))     # last listed: a self-loop
+        atoms = ['p', ('t', 1), frozenset(['x', 'y']), 'q', 7]
+        L = {nm(i): set(a for a in atoms if rr.random() < 0.3)
+             for i in range(n) if rr.random() < 0.8}
+        # equal but distinct objects for the same state in S, R and L
+        if k % 3 == 2:
+            L = {(a[0], a[1], ''.join(['k'])): v for a, v in L.items()}
+        LOG.sig['deep:big' if big else 'deep:small'] += 1
+        try:
+            K = Kripke(S=[nm(i) for i in range(n)], S0=[nm(0)], R=R, L=L)
+            C1 = K.clone()
+            C2 = C1.clone()
+            C3 = C2.clone()
+            st = list(C3.states())
+            V = set(st[: max(2, len(st) * 2 // 3)])
+            for _ in range(3):
+                try:
+                    S1 = C3.get_substructure(V)
+                    V2 = set(list(S1.states())[: max(1, len(V) // 2)])
+                    S1.get_substructure(V2 | {'__not_a_state__'})
+                    S1.clone().get_substructure(set(S1.states()))
+                except RuntimeError:
+                    pass
+                V = set(rr.sample(st, rr.randint(1, len(st))))
+            if not big:
+                state_independence(C2)
+        except RuntimeError:
+            pass
+
+
 def with_modelcheckers(ctx, r):
     """Invariant around the public-method calls the model checkers make."""
     from pyModelChecking import CTL, CTLS, LTL
@@ -546,6 +595,7 @@ def run(ctx):
         if ctx.mine(k):
             drive(4, R, k, ctx, gen.rng(ctx.seed, PROP, k))
         k += 1
+    deep_copies(ctx, r)
     with_modelcheckers(ctx, r)
     ctx.extra['reach'] = probes.result()
 
